@@ -87,6 +87,11 @@ pub fn gen_template(rng: &mut Rng, tag: &str, tabs: bool) -> String {
         if li == 0 {
             l.push_str("{obs}");
         }
+        if tabs && rng.chance(1, 6) {
+            // "{" followed by whitespace is literal text (only generated where no other literal
+            // precedes it on the line: the parser re-orders that case, which is C10's business)
+            l.push_str(if rng.chance(2, 3) { "{\t" } else { "{ " });
+        }
         if rng.chance(1, 10) {
             // an empty (or obs-only) line
             lines.push(l);
